@@ -135,6 +135,10 @@ def run_rs(ctx, g, c):
     inp = c02.describe(c)
     common_counts(ctx, c, "rs")
     want_all = "return_all_logprobs" in kw
+    ev_rows = [r for e_ in gen.calls if e_["method"] == "ll" for r in e_["rows"]]
+    if c["profile"] is not None and ev_rows and all(0 <= r < N and c["profile"][r] == -np.inf for r in ev_rows):
+        ctx.count("out of domain: all evaluated likelihoods -inf (skipped)")
+        return
     if out not in ("ok", "ok+all") or (out == "ok+all") != want_all:
         ctx.evaluated(REL_RS, None)
         rc.report(ctx, (REL_RS, "outcome", out, type(res).__name__), REL_RS, g, inp, dict(outcome=out, message=str(res)[:300]), None,
